@@ -2,11 +2,11 @@
   Props/C16 — "The task state reported after a transition is the device's real state".
 
   Every theorem is about ALL scripts (lists of outcomes of any length over
-  {done, refused, errorState, reqLost, replyLost}), all seven O² events, all five source states,
+  {done, refused, errorState, reqLost, replyLost, errorNoState}), all seven O² events, all five source states,
   and both device flavours (`strict` = the device rejects a request that names a source state it is
   not in with a gRPC error, as the repository's own OCC plugin and OCC library do).
   Proof method: the transitioner is an interaction tree; `runs` enumerates the COMPLETE table of
-  behaviours of a cell (5 outcomes at every request actually issued), `run_mem_runs`
+  behaviours of a cell (6 outcomes at every request actually issued), `run_mem_runs`
   (Proofs/FairMQ) shows that the run of any script is in that table, and the predicate is decided on
   the whole table by kernel evaluation — the whole table, not a sample.
 
@@ -188,6 +188,63 @@ theorem C16_accept_rule (ok trigExecutor sameEvent stateIsDst : Bool) :
     ruleOk ok trigExecutor sameEvent stateIsDst true (accept ok trigExecutor sameEvent stateIsDst) = true := by
   cases ok <;> cases trigExecutor <;> cases sameEvent <;> cases stateIsDst <;> decide
 
+/-! ## the control transport (protobuf | JSON) -/
+
+/-- TRANSPORT IRRELEVANT. What `doTransition` sees of a device reply is the reply, on both transports: the JSON
+    document leaves out the zero-valued fields, and decoding it into the FRESH reply object that
+    `nopb.occClient.Transition` allocates for the call restores exactly them. So the state reported for a step
+    depends on THIS step's reply only. (Tie: the exhaustive correspondence run drives every cell × script
+    through the protobuf client and through the JSON client with the real codec.) -/
+theorem C16_transport_irrelevant {σ ε : Type} (t : Transport) (m : Msg σ ε) : t.deliver m = m := by
+  cases t
+  · rfl
+  · rcases m with ⟨st, ok, trig, evt⟩
+    cases st <;> cases evt <;> cases ok <;> by_cases h : trig = 0 <;>
+      simp [Transport.deliver, jsonDecodeInto, jsonDoc, Msg.zero, h]
+
+/-- …and `Dev.step`, the model's request/reply step that every theorem above is about, IS client.go's acceptance
+    rule applied to what the transport delivers of the device's message (or the transport error when there is
+    none) — for every device, flavour, request, outcome and transport. -/
+theorem C16_step_is_delivered_reply {σ ε : Type} [DecidableEq σ] [DecidableEq ε] (D : Dev σ ε) (t : Transport)
+    (strict : Bool) (dev : σ) (a : Ask σ ε) (o : Outcome) :
+    (D.step strict dev a o).2 =
+      match D.msg strict dev a o with
+      | some m => replyOf a (t.deliver m)
+      | none => ⟨none, .transport⟩ := by
+  simp only [C16_transport_irrelevant]
+  unfold Dev.step Dev.msg
+  split
+  · rfl
+  · cases o <;> simp [replyOf, accept]
+    all_goals (split <;> simp)
+
+/-- A reply that arrives WITHOUT a state (`errorNoState`: the device fell into ERROR and could not say so) is
+    never turned into a state or into success: if it answers the last request, `Commit` reports `""` together
+    with an error — for every cell, script and flavour. (`""` is then not the image of ERROR: the class is
+    excluded by `noLoss` / `lastReceived` like a lost reply, and reported as `lost_reply`.) -/
+theorem C16_stateless_reply_explicit_error (strict : Bool) (evt : O2Event) (src : O2State) (script : List Outcome) :
+    let r := runFMQ codeCfg strict evt src script
+    (r.steps.getLast?.map (fun s => s.srcOk strict && decide (s.out = .errorNoState))) = some true →
+      r.reported = none ∧ r.err ≠ .nil := by
+  intro r h
+  have := all_runsFMQ codeCfg strict evt src
+    (fun r => !((r.steps.getLast?.map (fun s => s.srcOk strict && decide (s.out = .errorNoState))) == some true) ||
+      (decide (r.reported = none) && decide (r.err ≠ .nil)))
+    (by cases strict <;> cases evt <;> cases src <;> decide) script
+  simpa [r, h] using this
+
+/-- The same, DIRECT control mode. -/
+theorem C16_stateless_reply_explicit_error_direct (strict : Bool) (evt : O2Event) (src : O2State) (script : List Outcome) :
+    let r := runDirect strict evt src script
+    (r.steps.getLast?.map (fun s => s.srcOk strict && decide (s.out = .errorNoState))) = some true →
+      r.reported = none ∧ r.err ≠ .nil := by
+  intro r h
+  have := all_runsDirect strict evt src
+    (fun r => !((r.steps.getLast?.map (fun s => s.srcOk strict && decide (s.out = .errorNoState))) == some true) ||
+      (decide (r.reported = none) && decide (r.err ≠ .nil)))
+    (by cases strict <;> cases evt <;> cases src <;> decide) script
+  simpa [r, h] using this
+
 /-! ## what does NOT hold (full-strength statements and their refutations) -/
 
 /-- FULL image clause, as the property text has it — over every script, lost messages included. FALSE. -/
@@ -346,4 +403,17 @@ example :
     (runFMQ codeCfg false .GO_ERROR .RUNNING []).err = .unimplemented ∧
     (runFMQ legacyCfg false .GO_ERROR .RUNNING []).err = .nil ∧
     (runFMQ legacyCfg false .GO_ERROR .RUNNING []).reported = (runFMQ codeCfg false .GO_ERROR .RUNNING []).reported := by
+  decide
+
+/-- The fresh reply object matters: the same JSON document decoded into an object that still holds the previous
+    step's reply (READY / ok) yields that previous state — `C16_transport_irrelevant` is about `Msg.zero`. And a
+    stateless reply after full ones: CONFIGURE whose BIND is answered without a state reports `""` with an error
+    while the device is in ERROR (class `lost_reply`). -/
+example :
+    let stateless : Msg FState FEvent := ⟨none, false, 0, some .RUN⟩
+    let previous : Msg FState FEvent := ⟨some .READY, true, 0, some .INIT_TASK⟩
+    jsonDecodeInto previous (jsonDoc stateless) = ⟨some .READY, true, 0, some .RUN⟩ ∧
+    Transport.json.deliver stateless = stateless ∧
+    (let r := runFMQ codeCfg false .CONFIGURE .STANDBY [.done, .done, .errorNoState]
+     r.reported = none ∧ r.err = .rejected ∧ r.final = .ERROR ∧ r.steps.length = 3 ∧ noLoss false r = false) := by
   decide
